@@ -126,6 +126,15 @@ def run(out, tier, seed):
             evs = [dict(e, form=["ground", "bound_upper", "bound_lower", "bound_mixed"][(n + i) % 4]) if e.get("op") == "update" else e for i, e in enumerate(h)]
             evs += [{"op": "triples", "g": "D", "pat": ["_", "_", "_"]}, {"op": "triples", "g": "g1", "pat": ["_", "_", "_"]}]
             jobs.append({"cfg": {"autocommit": ac, "dirty_reads": dr, "method": m, "format": f, "vocab": vocabs[n % len(vocabs)]}, "events": evs})
+    # a graph announced, the announcement rolled back, announced again (empty or not), committed; removed and announced again
+    directed = [[{"op": "add_graph", "g": "g1"}, {"op": "rollback"}, {"op": "add_graph", "g": "g1"}, {"op": "commit"}, {"op": "contexts"}],
+                [{"op": "add_graph", "g": "g1"}, {"op": "commit"}, {"op": "remove_graph", "g": "g1"}, {"op": "commit"}, {"op": "add_graph", "g": "g1"}, {"op": "commit"}, {"op": "contexts"}],
+                [{"op": "add_graph", "g": "g2"}, {"op": "rollback"}, {"op": "add_graph", "g": "g2"}, {"op": "add", "g": "g2", "t": [S[0], P[0], O[0]]}, {"op": "commit"}, {"op": "remove", "g": "g2", "pat": ["_", "_", "_"]}, {"op": "commit"}, {"op": "contexts"}],
+                [{"op": "add_graph", "g": "g1"}, {"op": "add_graph", "g": "g1"}, {"op": "commit"}, {"op": "rollback"}, {"op": "add_graph", "g": "g1"}, {"op": "add_graph", "g": "g2"}, {"op": "rollback"}, {"op": "add_graph", "g": "g2"}, {"op": "commit"}, {"op": "contexts"}]]
+    for h in directed:
+        for ac, dr in ((True, False), (False, False), (False, True)):
+            for m, f in combos[::2]:
+                jobs.append({"cfg": {"autocommit": ac, "dirty_reads": dr, "method": m, "format": f, "vocab": "plain"}, "events": [dict(e) for e in h]})
     for i in range(400 if quick else 6000):
         ac = rng.random() < 0.4
         m, f = rng.choice(combos)
